@@ -73,7 +73,10 @@ const (
 // (transitively, at package level) depends on X. override.patchVulns decides X's override
 // against the graph of an earlier round; when Y moves afterwards X may resolve higher without
 // the pin than with it. The class cannot be decided before running the strategy, so it is
-// honoured in the oracle: the decision for X inside such a patch is skipped and counted.
+// honoured in the oracle: a change of X inside such a patch that no subset of the patch's other
+// changes justifies is skipped and counted when a state of an earlier round justifies it
+// (explainedByEarlierRound: Y not yet overridden, or overridden at any of its versions), and
+// is a violation when none does.
 const clsPinBelowMovedParent = "c11.override_pin_below_moved_parent"
 
 // descendants is the package-level "depends on, transitively" relation of a universe.
